@@ -325,7 +325,16 @@ pub fn run_pipe_controlled_ext(
     let mut turn = 0usize; // number of Advance moves seen (only used to recognise stutters)
     let fuel = choices.len() + (6 * n + w + 2) * (w + 3);
     let mut k = 0usize;
+    // relative speed inside a controlled schedule: in one case out of five the whole system stands still for 25 ms at
+    // one step of the schedule (a function of the case, so a replay pauses at the same step). Code whose behaviour
+    // depends on how long a worker has been waiting (spin-then-sleep, time-outs, back-off) takes its slow path after
+    // the pause, and the steps around that path are then chosen by the schedule like any others.
+    let h = choices.iter().fold(n * 31 + w * 7 + 3, |a, c| a.wrapping_mul(131).wrapping_add(*c + 1));
+    let pause_at = if w >= 2 && n >= 2 && h % 5 == 0 { Some((h / 5) % (choices.len().max(4 * n) + 1)) } else { None };
     while !run.hang {
+        if Some(k) == pause_at {
+            std::thread::sleep(Duration::from_millis(25));
+        }
         if k >= fuel {
             run.events.push([w as i64, 13, 0, pulled.load(Ordering::SeqCst) as i64]);
             break;
